@@ -2,10 +2,12 @@
 //! also callable natively for replay (see main.rs).
 pub mod sym;
 pub mod k_entity;
+pub mod t_probe;
 
 pub type Harness = fn();
 pub fn registry() -> Vec<(&'static str, Harness)> {
     let mut v: Vec<(&'static str, Harness)> = Vec::new();
     k_entity::register(&mut v);
+    t_probe::register(&mut v);
     v
 }
